@@ -273,6 +273,9 @@ func vpH_C11_T_flapping_verify() {
 	s := vpConnInstance(H, 0, map[string]bool{"reconnect_verification_success": true})
 	s.kv.opLeft = 40
 	s.st.noEvents = true
+	if vpChoose("slow-reads", 2) == 1 {
+		s.kv.getRespLat = 300 * time.Millisecond // the answers to the verification's reads travel 300 ms: the flap may fall in between
+	}
 	s.notify(0)
 	time.Sleep(300 * time.Millisecond)
 	s.notify(1)
@@ -290,7 +293,7 @@ func vpH_C11_T_flapping_verify() {
 		r2 = vpNow()
 		s.notify(1)
 	}()
-	time.Sleep(2 * time.Second)
+	time.Sleep(3 * time.Second)
 	vpQuiesce()
 	vpCover("C11.flapping-verify")
 	dl := vpDeadlocked()
